@@ -111,11 +111,21 @@ def base_scenario(rng, proto=None, small=False):
         # a forced write of its own while that packet is being written
         # (re-entrant use of the write lock, which the library supports)
         reentrant = rng.choice(real)
+    # all of a session's packets may be written at once (forced) by the
+    # user thread instead of queued; and a send() may block for a while
+    # (the peer reads slowly), keeping its caller inside a frame
+    force_all = rng.random() < 0.25
+    stalls = {}
+    if rng.random() < 0.3:
+        for _ in range(rng.choice([1, 2, 3])):
+            stalls[str(rng.randrange(4, 40))] = rng.choice(
+                [2000, 80000, 400000, 3000000])
     return {
         'proto': proto, 'threshold': threshold, 'cipher': cipher,
         'items': items, 'writes': writes, 'reentrant': reentrant,
+        'force_all': force_all,
         'server': {'conns': [{'login': login, 'play': items}]},
-        'net': {'latency_us': 200},
+        'net': {'latency_us': 200, 'send_stalls': stalls},
         'sched': {'granularity': 'io', 'max_steps': 400000},
         'rand_seed': rng.randrange(2**32),
     }
@@ -397,7 +407,8 @@ def _execute(scenario, tape, want_world=False):
                                          c=bytes.fromhex(wr[4]))
                         if sc.get('reentrant') == wi:
                             c['target'] = pkt
-                        w.api('write', conn.write_packet, pkt)
+                        w.api('write', conn.write_packet, pkt,
+                              force=bool(sc.get('force_all')))
                     n_ka = sum(1 for it in sc['items'] if it[0] == 'ka')
                     want_frames = len(c['exp_out']) + n_ka + (
                         1 if sc.get('reentrant') is not None else 0)
